@@ -71,6 +71,12 @@ func LoadProgram(repo string, patterns []string) (*Program, error) {
 		return nil, fmt.Errorf("package errors: %s", strings.Join(errs, "; "))
 	}
 	prog, spkgs := ssautil.AllPackages(pkgs, ssa.InstantiateGenerics)
+	// debug references (source names of locals, used by loop invariants) for repository packages only
+	for _, sp := range prog.AllPackages() {
+		if strings.HasPrefix(sp.Pkg.Path(), repoModule) {
+			sp.SetDebugMode(true)
+		}
+	}
 	prog.Build()
 	p := &Program{fset: prog.Fset, prog: prog, pkgs: pkgs, ssaPkgs: spkgs, byPath: map[string]*ssa.Package{}, repo: repo, funcs: map[string]*ssa.Function{}}
 	for _, sp := range prog.AllPackages() {
